@@ -111,13 +111,29 @@ def run_group(group, tier, seed=0, extra_args=()):
         missing = set(re.findall(r'`([A-Za-z0-9_:&%]+)` is not supported', p.stderr))
         lib = ondemand_library()
         add = [k for k in sorted(missing) if k in lib and k not in injected]
+        # constants of the unit's own source file that changed code refers to (rule E11: pasted verbatim)
+        for name in sorted(set(re.findall(r'cannot find value `([A-Z][A-Z0-9_]*)` in this scope', p.stderr))):
+            key = 'const:' + name
+            if key in injected or key in add:
+                continue
+            for src_rel in ex['sources']:
+                if src_rel.startswith('registry:'):
+                    continue
+                try:
+                    src = extract.read_repo(src_rel)
+                    a0, b0 = extract.find_item(src, 'const', name)
+                    lib[key] = extract.pubify_item(extract.strip_vis_and_attrs(src[a0:b0]))
+                    add.append(key)
+                    break
+                except Exception:
+                    continue
         if not add:
             break
         text = ex['text']
         idx = text.rfind('} // verus!')
         if idx < 0:
             break
-        block = ''.join('\n// on-demand T-std spec for `%s`\n%s\n' % (k, lib[k]) for k in injected + add)
+        block = ''.join('\n// on-demand: `%s`\n%s\n' % (k, lib[k]) for k in injected + add)
         with open(gen, 'w') as f:
             f.write(text[:idx] + block + text[idx:])
         injected += add
